@@ -326,6 +326,18 @@ def main(tier, seed, replay=None):
             seen.add(k)
             maps.append(c)
     cases += par.sample(maps, 2 if q else max(1, len(maps) // 6000), seed)
+    # maps with the end points and length of an increasing map, then one
+    # more derivation
+    res3 = tlc.run("MC_Basin", CFG.format(m=3).replace(
+        "NEXT Next", "NEXT EndpointNext"), workers=8, timeout=3000)
+    if not res3.ok:
+        raise tlc.TLCError("BasinSpec (end points): %s" % res3.violated)
+    ev.add_tlc("MC_Basin maps with common end points", res3)
+    for c in res3.tagged("H"):
+        k = str(c)
+        if k not in seen and len(c) == 3:
+            seen.add(k)
+            cases.append(c)
     root = tlc.scratch_dir("vp_c07_")
     try:
         origin = root / "origin.rtdc"
